@@ -20,6 +20,7 @@ from pyglove.core import hyper
 from pyglove.core import symbolic
 from pyglove.core.tuning import backend as backend_lib
 from pyglove.core.tuning.early_stopping import EarlyStoppingPolicy
+from pyglove.core.utils import _verif_hooks
 
 
 # A hyper value is a symbolic value that contains objects of
@@ -261,6 +262,7 @@ def sample(space: Union[HyperValue,
       feedback = backend.next()
       dna = feedback.dna
       reward = dna.metadata.get('reward')
+      _verif_hooks.emit('sample_reward', has=0 if reward is None else 1)
       if reward is None:
         # Decode and return current example to client code for evaluation.
         if template is not None:
